@@ -9,6 +9,7 @@ import (
 	"fmt"
 	"os"
 	"strconv"
+	"strings"
 	"sync"
 	"syscall"
 	"time"
@@ -50,6 +51,7 @@ type crCase struct {
 	Mux   bool   `json:"mux"`
 	Point int    `json:"point"`
 	Delay int    `json:"delay_ms"` // for the broker points: how long after issuing the id the plugin dies
+	Shape int    `json:"shape"`    // for the mid-line point: what reached stdout before the death
 	Kind  string `json:"kind"`
 }
 
@@ -88,6 +90,11 @@ func genCrash(o opts) []crCase {
 				for _, d := range delays {
 					cs = append(cs, crCase{Proto: pm.p, Mux: pm.m, Point: pt, Delay: d, Kind: "product"})
 				}
+				if pt == cpMidLine {
+					for sh := 1; sh <= 3; sh++ {
+						cs = append(cs, crCase{Proto: pm.p, Mux: pm.m, Point: pt, Shape: sh, Kind: "product"})
+					}
+				}
 			}
 		}
 	}
@@ -98,6 +105,7 @@ type opObs struct {
 	op    int
 	class int // 0 ok, 1 error, 2 did not return within the bound
 	ms    int64
+	phase int // 0 issued while the plugin was alive, 1 in flight when it died, 2 issued after its death
 }
 
 const crashHangBound = 20 * time.Second
@@ -113,9 +121,9 @@ func timed(op int, f func() error) opObs {
 		if err != nil {
 			c = 1
 		}
-		return opObs{op, c, time.Since(t0).Milliseconds()}
+		return opObs{op, c, time.Since(t0).Milliseconds(), 0}
 	case <-time.After(crashHangBound):
-		return opObs{op, 2, crashHangBound.Milliseconds()}
+		return opObs{op, 2, crashHangBound.Milliseconds(), 0}
 	}
 }
 
@@ -125,7 +133,18 @@ func runOneCrash(c crCase) (sx.V, sx.V) {
 	case cpBeforeOutput:
 		pc["crash_point"] = "before-output"
 	case cpMidLine:
-		pc["partial_line"] = "1|1|unix|/tmp/never"
+		pc["partial_line"] = "1|1|un"
+		switch c.Shape {
+		case 1: // start-up noise, then a handshake line cut off
+			pc["pre_output"] = "plugin warming up\n"
+			pc["partial_line"] = "1|1|tcp|127.0"
+		case 2: // a complete line with an incompatible version, more output, then a cut-off line
+			pc["pre_output"] = "1|999|unix|/nowhere|netrpc\nsome more output\n"
+			pc["partial_line"] = "and a tail"
+		case 3: // a complete but unusable line followed by a burst
+			pc["pre_output"] = "not a handshake\n" + strings.Repeat("line of output\n", 200)
+			pc["partial_line"] = "x"
+		}
 	case cpAfterLine:
 		pc["crash_point"] = "serve.handshake-printed"
 	case cpInStream:
@@ -135,12 +154,16 @@ func runOneCrash(c crCase) (sx.V, sx.V) {
 	cl := plugin.NewClient(vpClientConfig(o))
 	var obs []opObs
 	var mu sync.Mutex
-	add := func(x opObs) { mu.Lock(); obs = append(obs, x); mu.Unlock() }
+	phase := 0
+	add := func(x opObs) { mu.Lock(); x.phase = phase; obs = append(obs, x); mu.Unlock() }
 	var rpcc plugin.ClientProtocol
 	var caller vp.Caller
 	tDeath := time.Now()
 	died := func() { tDeath = time.Now() }
 
+	if c.Point <= cpAfterLine {
+		phase = 1
+	}
 	add(timed(opStart, func() error { _, err := cl.Start(); return err }))
 	pid := 0
 	if rc := cl.ReattachConfig(); rc != nil {
@@ -150,6 +173,7 @@ func runOneCrash(c crCase) (sx.V, sx.V) {
 	}
 	if c.Point <= cpAfterLine {
 		died()
+		phase = 2
 	}
 	add(timed(opClient, func() error { var err error; rpcc, err = cl.Client(); return err }))
 	if rpcc != nil {
@@ -172,10 +196,12 @@ func runOneCrash(c crCase) (sx.V, sx.V) {
 			time.Sleep(50 * time.Millisecond)
 		case cpInUnary:
 			died()
+			phase = 1
 			add(timed(opCall, func() error { _, err := caller.Call(vp.Req{Op: "crash-in-call"}); return err }))
 		case cpInStream:
 			// the plugin dies while producing the second chunk
 			died()
+			phase = 1
 			add(timed(opStream, func() error {
 				n, err := caller.Stream(50)
 				if err == nil && n == 50 {
@@ -189,14 +215,11 @@ func runOneCrash(c crCase) (sx.V, sx.V) {
 		case cpBrokerDial:
 			out, err := caller.Call(vp.Req{Op: "accept", K: "crash", N: c.Delay, ID: 4242})
 			died()
+			phase = 1
 			if err == nil {
 				add(timed(opBrokerDial, func() error {
 					if gb := caller.GRPC(); gb != nil {
-						cc, err := gb.Dial(out.ID)
-						if err == nil {
-							cc.Close()
-						}
-						return err
+						return grpcDialAndCall(gb, out.ID)
 					}
 					conn, err := caller.Mux().Dial(out.ID)
 					if err == nil {
@@ -211,6 +234,7 @@ func runOneCrash(c crCase) (sx.V, sx.V) {
 		case cpBrokerAccept:
 			_, err := caller.Call(vp.Req{Op: "dial", K: "crash", N: c.Delay, ID: 4343})
 			died()
+			phase = 1
 			if err == nil {
 				add(timed(opBrokerAccept, func() error {
 					if gb := caller.GRPC(); gb != nil {
@@ -238,7 +262,12 @@ func runOneCrash(c crCase) (sx.V, sx.V) {
 			time.Sleep(50 * time.Millisecond)
 		}
 	}
+	if c.Point == cpBrokerDial || c.Point == cpBrokerAccept {
+		// the in-flight call may have returned before the plugin's death: what follows is "afterwards" only from then on
+		time.Sleep(time.Until(tDeath.Add(time.Duration(c.Delay+150) * time.Millisecond)))
+	}
 	// afterwards: every kind of call once more
+	phase = 2
 	add(timed(opStart, func() error { _, err := cl.Start(); return err }))
 	add(timed(opClient, func() error { _, err := cl.Client(); return err }))
 	if rpcc != nil {
@@ -256,10 +285,11 @@ func runOneCrash(c crCase) (sx.V, sx.V) {
 				return err
 			}))
 			if !(c.Point == cpBrokerDial || c.Point == cpBrokerAccept) {
-				add(timed(opBrokerDial, func() error {
-					cc, err := caller.GRPC().Dial(777)
+				add(timed(opBrokerDial, func() error { return grpcDialAndCall(caller.GRPC(), 777) }))
+				add(timed(opBrokerAccept, func() error {
+					ln, err := caller.GRPC().Accept(779)
 					if err == nil {
-						cc.Close()
+						ln.Close()
 					}
 					return err
 				}))
@@ -300,9 +330,20 @@ func runOneCrash(c crCase) (sx.V, sx.V) {
 		if x.ms > 9000 {
 			slow = 1
 		}
-		ops = append(ops, sx.L{sx.I(x.op), sx.I(x.class), sx.I(slow)})
+		ops = append(ops, sx.L{sx.I(x.op), sx.I(x.class), sx.I(slow), sx.I(x.phase)})
 	}
 	return in, sx.L{ops, sx.Bool(exited), sx.I(ctxDone), sx.I(0)}
+}
+
+// grpcDialAndCall: with multiplexing Dial only builds a lazy connection, so the dial is judged together with the first call on it
+func grpcDialAndCall(gb *plugin.GRPCBroker, id uint32) error {
+	cc, err := gb.Dial(id)
+	if err != nil {
+		return err
+	}
+	defer cc.Close()
+	_, err = vp.NewGRPCCaller(cc, gb).Call(vp.Req{Op: "who"})
+	return err
 }
 
 func runCrash(o opts) error {
